@@ -109,7 +109,7 @@ def attribute32(v):
         return 'C09'
     if c.startswith('size-'):
         return 'C14'
-    if c == 'goroutine-leak':
+    if c in ('goroutine-leak', 'gate-trace-rejected'):
         return 'C12'
     if c == 'iteration':
         return 'C04'
@@ -397,6 +397,21 @@ def par_models():
     return ms
 
 
+GATE_CONFIGS = {
+    # name: (Pipeline, NW, LK, HK, Items definition in MCTraceParAgg)
+    'paror_w1_k3': ('ParOr', 1, 0, 2, 'I0'), 'paror_w2_k5': ('ParOr', 2, 3, 7, 'I0'), 'paror_w3_k4': ('ParOr', 3, 1, 4, 'I0'),
+    'paror_w1_k9': ('ParOr', 1, 0, 8, 'I0'),
+    'heapor_w2_i3': ('Heap', 2, 0, 3, 'I3'), 'heapor_w1_i5': ('Heap', 1, 0, 3, 'I5'), 'heapor_w3_i4': ('Heap', 3, 0, 3, 'I4m'),
+    'parand_w2_i4': ('Heap', 2, 0, 3, 'I4m'), 'parand_w1_i0': ('Heap', 1, 0, 3, 'I0'), 'parand_w3_i2': ('Heap', 3, 0, 3, 'I2m'),
+}
+
+
+def gate_cfg(name):
+    pl, nw, lk, hk, items = GATE_CONFIGS[name]
+    return ('SPECIFICATION TSpec\nCONSTANTS\n  Pipeline = "%s"\n  NW = %d\n  KBITS = 4\n  LK = %d\n  HK = %d\n  FixedWidth = FALSE\n'
+            '  CapA = 64\n  CapB = 64\n  Items <- %s\nINVARIANT NotFinished SafeAlong\nPOSTCONDITION HighWater\nCHECK_DEADLOCK FALSE\n') % (pl, nw, lk, hk, items)
+
+
 def c12(tier):
     q = tier == 'quick'
     ms = par_models()
@@ -409,6 +424,7 @@ def c12(tier):
             {'kind': 'replay', 'model': ms[0], 'kinds': ['chunks'], 'sample': 1.0, 'shards': 4},
             {'kind': 'drive', 'profile': 'parallel', 'traces': 64 if q else 800, 'steps': 40, 'shards': 8, 'gomaxprocs': [1, 2, 4, 16]},
             {'kind': 'drive', 'profile': 'parallel', 'traces': 48 if q else 600, 'steps': 30, 'shards': 8, 'gomaxprocs': [1, 2, 4, 16], 'extra': ['-spread', '300']},
+            {'kind': 'gate', 'configs': sorted(GATE_CONFIGS), 'runs': 12 if q else 150, 'gomaxprocs': [1, 2, 4, 16]},
         ],
     }
 
